@@ -20,6 +20,7 @@ import (
 	"errors"
 	"fmt"
 	"io"
+	"math"
 	"strconv"
 	"time"
 
@@ -659,6 +660,9 @@ func validateExtendedAttributeKey(key any) error {
 		label = int64(k)
 	case int64:
 	case uint:
+		if uint64(k) > math.MaxInt64 {
+			return fmt.Errorf("extended attribute key %v: integer label out of range", key)
+		}
 		label = int64(k)
 	case uint8:
 		label = int64(k)
@@ -667,6 +671,11 @@ func validateExtendedAttributeKey(key any) error {
 	case uint32:
 		label = int64(k)
 	case uint64:
+		// integer labels are read back as int64; a larger label would
+		// produce an envelope that cannot be parsed
+		if k > math.MaxInt64 {
+			return fmt.Errorf("extended attribute key %v: integer label out of range", key)
+		}
 		label = int64(k)
 	default:
 		return fmt.Errorf("extended attribute key %v: require int / tstr type", key)
